@@ -104,6 +104,7 @@ func buildTagFields(rt reflect.Type, nested, omitEmpty bool) (fa []*finfo) {
 			if f.Type.Kind() == reflect.Ptr {
 				for _, fi := range buildTagFields(f.Type.Elem(), nested, omitEmpty) {
 					fi.index = append([]int{i}, fi.index...)
+					fi.ivalue = skipNilEmbedded(fi.ivalue, len(fi.index)-1)
 					fi.value = fi.ivalue
 					fa = append(fa, fi)
 				}
@@ -157,6 +158,7 @@ func buildExactFields(rt reflect.Type, nested, omitEmpty bool) (fa []*finfo) {
 			if f.Type.Kind() == reflect.Ptr {
 				for _, fi := range buildExactFields(f.Type.Elem(), nested, omitEmpty) {
 					fi.index = append([]int{i}, fi.index...)
+					fi.ivalue = skipNilEmbedded(fi.ivalue, len(fi.index)-1)
 					fi.value = fi.ivalue
 					fa = append(fa, fi)
 				}
@@ -187,6 +189,7 @@ func buildLowFields(rt reflect.Type, nested, omitEmpty bool) (fa []*finfo) {
 			if f.Type.Kind() == reflect.Ptr {
 				for _, fi := range buildLowFields(f.Type.Elem(), nested, omitEmpty) {
 					fi.index = append([]int{i}, fi.index...)
+					fi.ivalue = skipNilEmbedded(fi.ivalue, len(fi.index)-1)
 					fi.value = fi.ivalue
 					fa = append(fa, fi)
 				}
@@ -213,4 +216,30 @@ func buildLowFields(rt reflect.Type, nested, omitEmpty bool) (fa []*finfo) {
 		}
 	}
 	return
+}
+
+// skipNilEmbedded wraps a value function of a field that is reached through
+// an embedded pointer. If a pointer on the way to the field is nil the field
+// is omitted instead of a panic being raised by reflect. The below argument
+// is the length of the index path below the embedded pointer.
+func skipNilEmbedded(inner valFunc, below int) valFunc {
+	return func(fi *finfo, rv reflect.Value, addr uintptr) (any, reflect.Value, bool) {
+		if nilOnPath(rv, fi.index[:len(fi.index)-below]) {
+			return nil, nilValue, true
+		}
+		return inner(fi, rv, addr)
+	}
+}
+
+func nilOnPath(rv reflect.Value, index []int) bool {
+	for _, i := range index {
+		if rv.Kind() == reflect.Ptr {
+			if rv.IsNil() {
+				return true
+			}
+			rv = rv.Elem()
+		}
+		rv = rv.Field(i)
+	}
+	return rv.Kind() == reflect.Ptr && rv.IsNil()
 }
